@@ -285,6 +285,16 @@ class DataConnection(Connection, abc.ABC):
                     if not self._writer.is_closing():
                         self._writer.close()
 
+                    else:
+                        # The transport is already gone (a failed write led to
+                        # this call), waiting for it below does not suspend. The
+                        # listeners of CLOSING stop the jobs that use the
+                        # connection, possibly the job that made that write:
+                        # let its cancellation arrive here instead of inside
+                        # the CLOSED notification, where it would keep the
+                        # remaining listeners from being notified
+                        await asyncio.sleep(0)
+
                     async with atimeout(DISCONNECT_TIMEOUT):
                         await self._writer.wait_closed()
 
